@@ -462,7 +462,7 @@ std::string OptionContext::defaults(std::size_t n) const {
 	std::string opt; opt.reserve(80);
 	for (int g = 0; g < 2; ++g) {
 		// print all sub-groups followed by main group
-		for (std::size_t i = (g == 0), end = (g == 0) ? groups_.size() : 1; i < end; ++i) {
+		for (std::size_t i = (g == 0), end = (g == 0) ? groups_.size() : std::min<std::size_t>(1, groups_.size()); i < end; ++i) {
 			if (groups_[i].descLevel() <= dl) {
 				for (option_iterator it = groups_[i].begin(), oEnd = groups_[i].end(); it != oEnd; ++it) {
 					const Option& o = **it;
